@@ -2,29 +2,93 @@
   C14 — BALANCES / JOURNAL / PRINT equal their SELECT expansions.
 -/
 import BqlVerif.Model.Templates
-import BqlVerif.Generated.Columns
+import BqlVerif.Generated.Templates
 set_option autoImplicit false
 namespace Bql.C14
 
-def template (key : String) : Option String := (Gen.templates.find? (fun p => p.1 == key)).map (·.2)
+def template (key : String) : Option Doc := (Gen.templates.find? (fun p => p.1 == key)).map (·.2)
+
+mutual
+theorem Doc.eq_of_beq : ∀ (a b : Doc), Doc.beq a b = true → a = b
+  | .atom a, .atom b, h => by simp only [Doc.beq, beq_iff_eq] at h; rw [h]
+  | .node n fs, .node m gs, h => by
+    simp only [Doc.beq, Bool.and_eq_true, beq_iff_eq] at h
+    rw [h.1, Doc.eq_of_beqFields fs gs h.2]
+  | .list xs, .list ys, h => by
+    simp only [Doc.beq] at h
+    rw [Doc.eq_of_beqList xs ys h]
+  | .atom _, .node _ _, h | .atom _, .list _, h | .node _ _, .atom _, h | .node _ _, .list _, h
+  | .list _, .atom _, h | .list _, .node _ _, h => by simp [Doc.beq] at h
+theorem Doc.eq_of_beqFields : ∀ (fs gs : List (String × Doc)), Doc.beqFields fs gs = true → fs = gs
+  | [], [], _ => rfl
+  | (n, d) :: fs, (m, e) :: gs, h => by
+    simp only [Doc.beqFields, Bool.and_eq_true, beq_iff_eq] at h
+    rw [h.1.1, Doc.eq_of_beq d e h.1.2, Doc.eq_of_beqFields fs gs h.2]
+  | [], _ :: _, h | _ :: _, [], h => by simp [Doc.beqFields] at h
+theorem Doc.eq_of_beqList : ∀ (xs ys : List Doc), Doc.beqList xs ys = true → xs = ys
+  | [], [], _ => rfl
+  | d :: ds, e :: es, h => by
+    simp only [Doc.beqList, Bool.and_eq_true] at h
+    rw [Doc.eq_of_beq d e h.1, Doc.eq_of_beqList ds es h.2]
+  | [], _ :: _, h | _ :: _, [], h => by simp [Doc.beqList] at h
+end
+
+/-- the decision procedure behind the template theorems: find the generated tree and compare structurally -/
+def templateIs (key : String) (d : Doc) : Bool :=
+  match template key with
+  | some t => Doc.beq t d
+  | none => false
+
+theorem template_of_is (key : String) (d : Doc) (h : templateIs key d = true) : template key = some d := by
+  unfold templateIs at h
+  cases ht : template key with
+  | none => rw [ht] at h; cases h
+  | some t => rw [ht] at h; rw [Doc.eq_of_beq t d h]
 
 /-- **BALANCES [AT f]** is rewritten into exactly the SELECT the property names, for every
     summary function: the AST dumped from the live `transform_balances` equals the specification. -/
 theorem C14_balances_template :
-    template "balances:None" = some (balancesDoc none).render ∧
-    template "balances:units" = some (balancesDoc (some "units")).render ∧
-    template "balances:cost" = some (balancesDoc (some "cost")).render := by
-  decide +kernel
+    template "balances:None" = some (balancesDoc none) ∧
+    template "balances:units" = some (balancesDoc (some "units")) ∧
+    template "balances:cost" = some (balancesDoc (some "cost")) := by
+  refine ⟨?_, ?_, ?_⟩ <;> exact template_of_is _ _ (by decide +kernel)
 
 /-- **JOURNAL [account] [AT f]** likewise, with and without an account pattern -/
 theorem C14_journal_template :
-    template "journal:None:None" = some (journalDoc none none).render ∧
-    template "journal:Assets:None" = some (journalDoc (some "Assets") none).render ∧
-    template "journal:None:units" = some (journalDoc none (some "units")).render ∧
-    template "journal:Assets:units" = some (journalDoc (some "Assets") (some "units")).render ∧
-    template "journal:None:cost" = some (journalDoc none (some "cost")).render ∧
-    template "journal:Assets:cost" = some (journalDoc (some "Assets") (some "cost")).render := by
-  decide +kernel
+    template "journal:None:None" = some (journalDoc none none) ∧
+    template "journal:Assets:None" = some (journalDoc (some "Assets") none) ∧
+    template "journal:None:units" = some (journalDoc none (some "units")) ∧
+    template "journal:Assets:units" = some (journalDoc (some "Assets") (some "units")) ∧
+    template "journal:None:cost" = some (journalDoc none (some "cost")) ∧
+    template "journal:Assets:cost" = some (journalDoc (some "Assets") (some "cost")) := by
+  refine ⟨?_, ?_, ?_, ?_, ?_, ?_⟩ <;> exact template_of_is _ _ (by decide +kernel)
+
+/-- **the FROM and WHERE clauses of the statement are carried over as they are**, at their place in the SELECT, for
+    every summary function (the live transforms run on sentinel clauses; JOURNAL has no WHERE of its own) -/
+theorem C14_balances_clauses :
+    template "balances:None:from:where" = some (balancesDocFW none (some sentinelFrom) (some sentinelWhere)) ∧
+    template "balances:units:from:where" = some (balancesDocFW (some "units") (some sentinelFrom) (some sentinelWhere)) ∧
+    template "balances:cost:from:where" = some (balancesDocFW (some "cost") (some sentinelFrom) (some sentinelWhere)) ∧
+    template "balances:None:from" = some (balancesDocFW none (some sentinelFrom) none) ∧
+    template "balances:units:from" = some (balancesDocFW (some "units") (some sentinelFrom) none) ∧
+    template "balances:cost:from" = some (balancesDocFW (some "cost") (some sentinelFrom) none) ∧
+    template "balances:None:where" = some (balancesDocFW none none (some sentinelWhere)) ∧
+    template "balances:units:where" = some (balancesDocFW (some "units") none (some sentinelWhere)) ∧
+    template "balances:cost:where" = some (balancesDocFW (some "cost") none (some sentinelWhere)) := by
+  refine ⟨?_, ?_, ?_, ?_, ?_, ?_, ?_, ?_, ?_⟩ <;> exact template_of_is _ _ (by decide +kernel)
+
+theorem C14_journal_clauses :
+    template "journal:None:None:from" = some (journalDocF none none (some sentinelFrom)) ∧
+    template "journal:Assets:None:from" = some (journalDocF (some "Assets") none (some sentinelFrom)) ∧
+    template "journal:None:units:from" = some (journalDocF none (some "units") (some sentinelFrom)) ∧
+    template "journal:Assets:units:from" = some (journalDocF (some "Assets") (some "units") (some sentinelFrom)) ∧
+    template "journal:None:cost:from" = some (journalDocF none (some "cost") (some sentinelFrom)) ∧
+    template "journal:Assets:cost:from" = some (journalDocF (some "Assets") (some "cost") (some sentinelFrom)) := by
+  refine ⟨?_, ?_, ?_, ?_, ?_, ?_⟩ <;> exact template_of_is _ _ (by decide +kernel)
+
+/-- the generated trees are what the live `ast.tosexp` prints (checked by the translator with the line-by-line
+    algorithm of `Doc.lines`, recorded as a generated fact) -/
+theorem C14_trees_print_to_tosexp : Gen.templateTreesPrint = true := by decide
 
 /-- **PRINT** emits exactly the directives satisfying the FROM expression, in ledger order -/
 theorem C14_print_filter {E : Type} (p : E → Bool) (entries : List E) : printLoop p entries = entries.filter p := by
